@@ -2,7 +2,7 @@
 
 CHECK = {
     "harnesses": [
-        {"exe": "c05_penalty", "flavour": "plain", "cases": (1500000, 30000000), "procs": (8, 14), "subs": ["function", "solver"]},
+        {"exe": "c05_penalty", "flavour": "plain", "cases": (1500000, 20000000), "procs": (8, 14), "subs": ["function", "solver"]},
     ],
     "min_nontrivial": (50000, 1000000),
     "timeout": (900, 7200),
@@ -22,8 +22,8 @@ CHECK = {
                     "'exactly' is read as agreement to 1e3*eps*sum of the magnitudes of the elementary terms (summation order is not part of the definition)",
                     "rapidcheck generators; Eigen"],
     "technique": "property-based testing (rapidcheck) against an independent re-implementation of the defining formulas; recomputation of solver-reported feasibility",
-    "level_text": ("Generated-input exploration: 1.5e6 (quick) to 3e7 (thorough) generated (objective, constraint set, point, penalty, multipliers) tuples are "
-                   "compared with independently coded formulas, and 1.5e5 to 3e6 augmented-Lagrangian runs are checked for truthful `converged` flags and "
+    "level_text": ("Generated-input exploration: 1.5e6 (quick) to 2e7 (thorough) generated (objective, constraint set, point, penalty, multipliers) tuples are "
+                   "compared with independently coded formulas, and 1.5e5 to 2e6 augmented-Lagrangian runs are checked for truthful `converged` flags and "
                    "stored constraint values; held on everything generated, no claim beyond that."),
     "level_note": "trusted: the harness-side constraint / penalty formulas, Eigen, rapidcheck; registered objectives are evaluated through their own vgrad (the penalty layer is what is checked)",
 }
